@@ -51,7 +51,30 @@ func init() {
 	fw.Register(&fw.Check{ID: "C47", Level: "exploration", Run: runC47, QuickBudget: 150, ThoroughBudget: 900})
 }
 
-var c47Suffixes = []string{"~", "~2", "^", "^2", "^0", "^{commit}", "^{}", "^{/even}", "^{/low}", "^{/!-even}", "^{/zzz}"}
+var c47Suffixes = []string{"~", "~2", "^", "^2", "^0", "^{commit}", "^{}", "^{/even}", "^{/low}", "^{/!-even}", "^{/zzz}",
+	// extended tokens (see c47SuffixSeqs): the explicit-number forms of the
+	// parser (`~0` identity, `~1`, `^1`, `~3` deeper than most histories) and a
+	// regex assembled from several scanner tokens (number, space, word)
+	"~0", "~1", "^1", "~3", "^{/1 odd}"}
+
+const c47CoreSuffixes = 11 // the first 11 tokens are combined freely
+
+// c47SuffixSeqs: all sequences of <= maxLen core tokens, plus every extended
+// token alone and paired (before and after) with each of the navigation
+// tokens ~ ^ ^2.
+func c47SuffixSeqs(maxLen int) [][]int {
+	out := fw.Seqs(c47CoreSuffixes, maxLen)
+	nav := []int{0, 2, 3}
+	for x := c47CoreSuffixes; x < len(c47Suffixes); x++ {
+		out = append(out, []int{x})
+		if maxLen >= 2 {
+			for _, n := range nav {
+				out = append(out, []int{x, n}, []int{n, x})
+			}
+		}
+	}
+	return out
+}
 
 // c47Norm abstracts the regex text away for failure keys.
 func c47Norm(tok string) string {
@@ -137,8 +160,6 @@ func c47Verdict(goHash, gitAns string) string {
 	}
 	return ""
 }
-
-func c47SuffixSeqs(maxLen int) [][]int { return fw.Seqs(len(c47Suffixes), maxLen) }
 
 func c47Join(base string, seq []int) string {
 	s := base
